@@ -23,6 +23,7 @@ def run(ctx):
     ctx.sample(vlib.nth_line(files[0], 1))
     ctx.sample(vlib.nth_line(files[0], 2))
     ctx.absorb(verdicts, files, wlfam.describe_wl)
+    drawfam.opaque_reads(ctx, rng, 16384)
     biased = drawfam.draw_conformance(ctx, wlfam.bounds_seen(files) | {18325, 10129}, "wordlist recipes")
     ctx.assumptions += ["C01 for index -> probability 1/n (the bounds used here, incl. the shipped list sizes, are checked against Draw.tla)",
                         "separator recipes with requirements are checked for structure only (an exhausted attempt budget yields an empty separator)"]
